@@ -511,6 +511,7 @@ func runC09(p *Prog, r *Report) {
 	c09R4(p, r)
 	c09R5(p, r)
 	c15R6(p, r, "C09.R6")
+	c16R4(p, r, "C09.R7")
 }
 
 // sortObl is a sort call that canonicalises a sequence.
